@@ -18,7 +18,7 @@ PROPERTY = "C11"
 LEVEL = "exploration"
 RULE = ("placement cases: a node set of 1-8 names (host:port look-alikes such as a:1/a:11, UNIX paths, free text), "
         "a hash (real murmur3 with seed 0 or another seed, or a tie-forcing injected hash), a key corpus (LCG-derived "
-        "k<n>, digit-only, long keys + Hypothesis-drawn keys), an add/remove history. For each: (i) get_node == "
+        "k<n>, digit-only, long keys + Hypothesis-drawn keys), an add/remove history in which each step is or is not followed by lookups (so remove+add pairs leave the node count unchanged between lookups). For each: (i) get_node == "
         "independent reference rule (max murmur3('<node>-<key>'), ties to greatest name), (ii) equal under every "
         "permutation of insertion (all n! for n<=6) and for any add/remove history reaching the same set, also when "
         "built via the nodes= constructor argument, (iii) removal moves only the removed node's keys, addition moves "
@@ -163,7 +163,9 @@ def check_placement(case):
     r = _build([], hname, hseed)
     cur = []
     removal = False
-    for op, idx in case.get("history", ()):
+    for step in case.get("history", ()):
+        op, idx = step[0], step[1]
+        probe_now = step[2] if len(step) > 2 else True     # some steps are not followed by lookups: remove+add leaves the count unchanged
         x = universe[idx % len(universe)]
         if op == 1:
             if x in cur:
@@ -182,7 +184,7 @@ def check_placement(case):
                 cur.append(x)
         # lookups interleaved with membership changes: the answer may depend on the
         # current set only, not on what was looked up (or cached) under an earlier set
-        probe = keys[:25]
+        probe = keys[:25] if probe_now else ()
         for k in probe:
             got = r.get_node(k)
             want = _ref_place(cur, k, hname, hseed) if cur else None
@@ -253,7 +255,7 @@ def placement_strategy(tier):
         "nkeys": st.sampled_from([120, 300] if not big else [300, 1000]),
         "extra_keys": st.lists(st.one_of(st.text(max_size=20), st.binary(max_size=10),
                                          st.text(st.characters(max_codepoint=255), max_size=300)), max_size=5),
-        "history": st.lists(st.tuples(st.integers(0, 1), st.integers(0, 9)), max_size=12),
+        "history": st.lists(st.tuples(st.integers(0, 1), st.integers(0, 9), st.booleans()), max_size=12),
         "spread": st.just(False),
     })
 
@@ -349,7 +351,7 @@ def check_spelling(case):
 
 CHILD = r"""
 import sys, hashlib
-sys.path.insert(0, sys.argv[1]); sys.path.insert(0, sys.argv[2])
+sys.path.insert(0, sys.argv[1]); sys.path.insert(0, sys.argv[2]); sys.path.append(sys.argv[2] + "/.deps")
 from props.c11 import corpus
 from pymemcache.client.rendezvous import RendezvousHash
 from pymemcache.client.hash import HashClient
